@@ -75,9 +75,10 @@ def offsets(chk):
     # out
     out = args.get('out')
     oalloc = [s for s in L.body if isinstance(s, ast.Assign) and out is not None and unparse(s.targets[0]) == unparse(out)]
-    okout = len(oalloc) == 1 and unparse(oalloc[0].value).startswith('np.empty(len(self.halos) + 1,') and unparse(out).endswith(f'[{AB}]')
+    okout = len(oalloc) == 1 and unparse(oalloc[0].value) in ('np.empty(len(self.halos) + 1, dtype=np.uint64)', 'np.empty(len(self.halos) + 1, dtype=np.int64)') \
+        and unparse(out).endswith(f'[{AB}]')
     chk.check(okout, 'C01-R1', CAT, q, 'offset array has one entry per halo plus the end', '',
-              f'offset array is {unparse(oalloc[0].value) if oalloc else None}: the end of the last halo would be lost', node=oalloc[0] if oalloc else c)
+              f'offset array is {unparse(oalloc[0].value) if oalloc else None}: needs one 64-bit entry per halo plus the end (a 32-bit total overflows for large catalogs)', node=oalloc[0] if oalloc else c)
     ret = [n for n in walk_no_nested(fn) if isinstance(n, ast.Return)]
     chk.check(len(ret) == 1 and unparse(ret[0].value) == unparse(out).split('[')[0], 'C01-R1', CAT, q, 'the per-sample offset arrays are returned', '',
               f'returns {unparse(ret[0].value) if ret else None}', node=fn, nontrivial=False)
@@ -193,6 +194,15 @@ def call_site(chk):
     t = unparse(I)
     okfile = "f'halo_{rvpid}_{AB}_{self.superslab_inds[" + iv + "]:03d}.asdf'" in t and "f'halo_{rvpid}_{AB}'" in t and 'af[self.data_key][colname][:]' in t
     okclean = f'clean_af = clean_afs[{iv}]' in t and "clean_af[self.data_key][f'{colname}_{AB}'][:]" in t
+    # the reusable list of cleaning particle files: position p holds the file of superslab number superslab_inds[p]
+    lst = [n for n in walk_no_nested(fn) if isinstance(n, ast.Assign) and unparse(n.targets[0]) == 'clean_afs' and isinstance(n.value, ast.ListComp)]
+    oklst = False
+    if len(lst) == 1:
+        g = lst[0].value.generators[0]
+        v = g.target.id if isinstance(g.target, ast.Name) else None
+        oklst = unparse(g.iter) == 'self.superslab_inds' and not g.ifs and v is not None and \
+            ("f'cleaned_rvpid_{" + v + ":03d}.asdf'") in unparse(lst[0].value.elt) and 'self.clean_rvpid_dir' in unparse(lst[0].value.elt)
+    okclean = okclean and oklst
     chk.check(okcm, 'C01-R4', CAT, q, 'raw column map rv -> rvint, pid -> packedpid', '', f'colname = {unparse(cm[0].value) if cm else None}', node=cm[0] if cm else fn)
     chk.check(okfile, 'C01-R4', CAT, q, 'particle file of superslab i, subsample AB', '', 'the particle file is not selected by (rv|pid, AB, superslab_inds[i])', node=I)
     chk.check(okclean, 'C01-R4', CAT, q, 'cleaning file i, column {colname}_{AB}', '', 'merged particles are not read from cleaning file i / column {colname}_{AB}', node=I)
